@@ -27,6 +27,8 @@ def _eval_lambda_nofork(ip, f, args, guard=None):
     finally:
         g['logic_mode'] -= 1
     if out is None:
+        if getattr(ip, 'last_spec_vacuous', False):
+            return True       # evaluated under a guard that is infeasible on this path: vacuous
         raise Unsupported('quantifier / implication body is not a pure expression')
     return box['v']
 
